@@ -1,4 +1,5 @@
 import I18n.Model.PyFmt
+import I18n.Model.PyFmtG
 import I18n.Spec.CPyPercent
 import I18n.Driver.Util
 /- Driver for the Python %-format model and the CPython `%` reference:
@@ -53,6 +54,9 @@ def showCpy : Except Err Unit → String
 def handle (op : String) (args : List String) : String :=
   match op, args with
   | "parse", [h] => showResult (parse (Driver.unhexChars h))
+  -- the parser with `Conversion.__init__` REGENERATED from lib/strformat/python.py (`I18n.Generated.PyFmtConv`)
+  | "gparse", [h] => showResult (G.parseG (Driver.unhexChars h))
+  | "gparse-nowarn", [h] => showResult (G.parseWG false (Driver.unhexChars h))
   | "parse-nowarn", [h] => showResult (parseW false (Driver.unhexChars h))
   | "plain", [h] => let s := Driver.unhexChars h; if plainPercent (s.length + 1) s then "plain" else "not-plain"
   | "cpy", [h, a] => showCpy (Spec.CPyPercent.format (Driver.unhexChars h) (parseArgs a))
